@@ -340,6 +340,10 @@ func init() {
 					}
 				}
 				e.fsRecord(op, path, Str{}, false)
+				if e.belowRegisteredFile(path) {
+					// a path through a regular file: ENOTDIR, which is not ErrNotExist
+					return Tuple{Iface{}, e.errNotDir(op)}
+				}
 				return Tuple{Iface{}, e.sentinel("internal/oserror", "ErrNotExist")}
 			}
 			ok, err := e.fsFork3(op, "ErrNotExist")
@@ -429,6 +433,30 @@ func init() {
 	reg(rt+"FsOK", func(fr *frame, args []Value) Value { return ev(fr, args).ok })
 }
 
+// errNotDir is syscall.ENOTDIR (as a bare errno) where package syscall is
+// part of the program, else an opaque error that is not ErrNotExist.
+func (e *Exec) errNotDir(op string) Value {
+	if t := e.namedType("syscall", "Errno"); t != nil {
+		return Iface{t: t, v: e.tt.BV(64, 20)}
+	}
+	return e.newErrorString(e.strConst(op + ": not a directory (stub)"))
+}
+
+// belowRegisteredFile: the path runs through a registered regular file
+// (<file>/...).
+func (e *Exec) belowRegisteredFile(path Str) bool {
+	for _, we := range e.walkList {
+		n := len(we.path.b)
+		if len(path.b) > n+1 && !e.branch(we.dir) {
+			pre := Str{append(append([]*Term{}, we.path.b...), e.tt.BV(8, '/'))}
+			if e.branch(e.matchAt(path.b, pre.b, 0)) {
+				return true
+			}
+		}
+	}
+	return false
+}
+
 func (e *Exec) fsModelRead(path Str) Value {
 	unsupported("fs model read")
 	return nil
@@ -477,6 +505,38 @@ func init() {
 				return true, Iface{}
 			}
 			return true, r
+		}
+		if e.fsStatFromWalk {
+			// the root as the registered entries have it
+			known, isDir := false, e.tt.False
+			for _, we := range e.walkList {
+				if len(we.path.b) == len(root.b) && e.branch(e.strEq(we.path, root)) {
+					known, isDir = true, we.dir
+					break
+				}
+			}
+			if !known {
+				// lstat of the root fails: the callback gets the error and decides
+				var lerr Value = e.sentinel("internal/oserror", "ErrNotExist")
+				if e.belowRegisteredFile(root) {
+					lerr = e.errNotDir("lstat")
+				}
+				r := e.call(fr, 0, fn, []Value{root, Iface{}, lerr}).(Iface)
+				if r.t != nil && (e.branch(e.eqVal(r, skipDir)) || e.branch(e.eqVal(r, skipAll))) {
+					return Iface{}
+				}
+				return r
+			}
+			if !e.branch(isDir) {
+				_, ret := visit(root, e.tt.False)
+				if ret == nil {
+					return Iface{}
+				}
+				if ri, ok := ret.(Iface); ok && ri.t != nil && (e.branch(e.eqVal(ri, skipDir)) || e.branch(e.eqVal(ri, skipAll))) {
+					return Iface{}
+				}
+				return ret
+			}
 		}
 		if stop, ret := visit(root, e.tt.True); stop {
 			return ret
